@@ -26,10 +26,13 @@ type LambdaCase struct {
 	Scripts []vengine.LambdaScript `json:"scripts"`         // by creation ordinal
 	Fault   *world.Fault           `json:"fault,omitempty"` // optional create-time failure of one instance
 	Bind    bool                   `json:"bind,omitempty"`
+	// CancelAfter > 0: the caller's context is cancelled after it has received that many messages
+	// (client hang-up in the middle of the run); clean-up must happen all the same
+	CancelAfter int `json:"cancel_after,omitempty"`
 }
 
 func genC30(t *rapid.T) LambdaCase {
-	c := LambdaCase{Count: rapid.IntRange(1, 3).Draw(t, "count")}
+	c := LambdaCase{Count: rapid.IntRange(1, 5).Draw(t, "count")}
 	if vt.Chance(t, "stdin", 20) {
 		c.Stdin = true
 		c.Count = 1
@@ -60,6 +63,9 @@ func genC30(t *rapid.T) LambdaCase {
 			s.AttachErr = true
 		}
 		c.Scripts = append(c.Scripts, s)
+	}
+	if vt.Chance(t, "callerGone", 25) {
+		c.CancelAfter = rapid.IntRange(1, 6).Draw(t, "cancelAfter")
 	}
 	if vt.Chance(t, "createFault", 25) {
 		name := rapid.SampledFrom([]string{"engine.VirtualizationStart@n0", "engine.VirtualizationCreate@n0", "store.AddWorkload", "engine.VirtualizationInspect@n0"}).Draw(t, "faultName")
@@ -127,6 +133,9 @@ func runC30once(x *vt.Ctx, c LambdaCase) (*vt.Finding, bool) {
 				cp := *m
 				cp.Data = append([]byte(nil), m.Data...)
 				r.msgs = append(r.msgs, &cp)
+				if c.CancelAfter > 0 && len(r.msgs) == c.CancelAfter {
+					cancel()
+				}
 			}
 		}
 		done <- r
@@ -147,7 +156,14 @@ func runC30once(x *vt.Ctx, c LambdaCase) (*vt.Finding, bool) {
 	}
 	// per workload
 	byID := map[string][]*types.AttachWorkloadMessage{}
+	callerGone := c.CancelAfter > 0 && len(r.msgs) >= c.CancelAfter
+	if callerGone {
+		x.Label("caller-gone-mid-run")
+	}
 	for _, m := range r.msgs {
+		if callerGone {
+			break // the caller hung up: what it still receives is not judged, the clean-up is
+		}
 		byID[m.WorkloadID] = append(byID[m.WorkloadID], m)
 	}
 	engineFailure := false
@@ -205,6 +221,9 @@ func runC30once(x *vt.Ctx, c LambdaCase) (*vt.Finding, bool) {
 	}
 	if c.Fault != nil && w.IC.FaultFired() {
 		cls = "create-failure:" + stepClass(c.Fault.Name)
+	}
+	if callerGone {
+		cls += ":caller-gone"
 	}
 	var left []string
 	for i := 0; i < 5; i++ { // the removal of lambda workloads runs in pool tasks: re-read before concluding
